@@ -199,6 +199,7 @@ func c01Engines(h *c01Hist) []*twig.Engine {
 			}
 		}
 		e.RegisterLoader(ld)
+		c01Loaders[e] = ld
 		for k, src := range c01ObjectTemplates {
 			if err := e.RegisterString("o"+strconv.Itoa(k), src); err != nil {
 				panic("c01: object template does not parse: " + err.Error())
@@ -298,6 +299,13 @@ func c01Exec(es []*twig.Engine, o c01Op, poisonSeed int64) (res string, out stri
 		}
 		s, err := t.Render(ctx)
 		return c01Class(s, err), s
+	case "store":
+		// a template arrives later: in the loader the engine has had from the start, or in a loader registered now
+		if o.Ptr {
+			e.RegisterLoader(&c01Loader{files: map[string]string{c01Name(o.N): o.Src}})
+		} else if ld := c01Loaders[e]; ld != nil {
+			ld.files[c01Name(o.N)] = o.Src
+		}
 	case "flood":
 		// another engine renders another template: enough distinct (type, attribute) pairs to roll the
 		// process-wide attribute cache over
@@ -314,11 +322,20 @@ func c01Exec(es []*twig.Engine, o c01Op, poisonSeed int64) (res string, out stri
 }
 
 func c01IsConfig(o c01Op) bool {
-	return o.Kind == "register" || o.Kind == "togglecache" || o.Kind == "alias" || o.Kind == "handle"
+	return o.Kind == "register" || o.Kind == "togglecache" || o.Kind == "alias" || o.Kind == "handle" || o.Kind == "store"
 }
 
 // handles kept by the caller, per engine and name
 var c01Handles = map[string]*twig.Template{}
+
+// the loader each engine of the current history was created with (operation "store" adds to it later)
+var c01Loaders = map[*twig.Engine]*c01Loader{}
+
+func c01Forget(es []*twig.Engine) {
+	for _, e := range es {
+		delete(c01Loaders, e)
+	}
+}
 
 func c01HandleKey(e *twig.Engine, n int) string { return fmt.Sprintf("%p/%d", e, n) }
 
@@ -333,6 +350,7 @@ func c01Pristine(h *c01Hist, k int) string {
 	twig.VerifDrainPools()
 	twig.VerifAttrCacheReset() // the other process-wide state: the attribute cache of render.go
 	es := c01Engines(h)
+	defer c01Forget(es)
 	for _, o := range h.Ops[:k] {
 		if c01IsConfig(o) {
 			c01Exec(es, o, 0)
@@ -470,6 +488,7 @@ func c01Run(h *c01Hist, mode string, seed int64, refs map[int]string, withModel 
 	twig.VerifDrainPools()
 	twig.VerifAttrCacheReset()
 	es := c01Engines(h)
+	defer c01Forget(es)
 	type kept struct {
 		k        int
 		s, first string
